@@ -108,6 +108,101 @@ static void quintics(unsigned long long& unit)
 	mc::count("transitions", evals);
 }
 
+// ---- special structures: zeros at the rule's own abscissae, re-entrant integrands, deep one-sided refinement -------------------
+static void special_structures(unsigned long long& unit)
+{
+	long long cases = 0, evals = 0;
+	// (a) polynomials of degree <= 5 that vanish on a subset of the first five Simpson abscissae a, a+h/4, m, b-h/4, b
+	std::vector<std::pair<double, double>> ivs = {{0, 1}, {-1, 1}, {-1, 2}, {2, -1}, {3, 3.5}};
+	for(auto& iv : ivs)
+		for(int subset = 1; subset < 32; subset++)
+			for(double lead : {1.0, -2.5})
+			{
+				if(!mc::mine(unit++)) continue;
+				double a = iv.first, b = iv.second, h = b - a;
+				std::vector<double> roots;
+				for(int k = 0; k < 5; k++) if(subset & (1 << k)) roots.push_back(a + h * k / 4);
+				auto f = [&](double x) { double p = lead; for(double r : roots) p *= (x - r); return p; };
+				// coefficients in binary128 (roots are dyadic: exact)
+				std::vector<__float128> c{(__float128)lead};
+				for(double r : roots)
+				{
+					std::vector<__float128> n(c.size() + 1, 0);
+					for(size_t k = 0; k < c.size(); k++) { n[k + 1] += c[k]; n[k] -= c[k] * (__float128)r; }
+					c = n;
+				}
+				__float128 A = a, B = b, exq = 0, pa = A, pb = B;
+				ld X = std::max(fabsl(a), fabsl(b)), cond = 0, px = 1;
+				for(size_t k = 0; k < c.size(); k++) { exq += c[k] * (pb - pa) / (k + 1); pa *= A; pb *= B; cond += fabsl((ld)c[k]) * px; px *= X; }
+				for(double eps : {1e-18, 1e-6, 1e2})
+					for(int depth : {0, 1, 3, 8})
+					{
+						std::string ck = "roots=" + mc::decv(roots) + ",lead=" + mc::dec(lead) + ",a=" + mc::dec(a) + ",b=" + mc::dec(b) + ",eps=" + mc::dec(eps) + ",depth=" + std::to_string(depth);
+						double v = structural("zeros_at_abscissae", ck, ck, f, a, b, eps, depth, evals);
+						double tol = K * mc::U_ * (depth + 2) * (double)(cond * fabsl((ld)b - a)) + mc::ETA;
+						if(!(std::fabs((double)(v - (ld)exq)) <= tol)) mc::violation("zeros_at_abscissae", "zeros_at_abscissae|" + ck + "|not_exact", "Integrate=" + mc::dec(v) + " exact " + mc::dec((double)(ld)exq) + " tol " + mc::dec(tol), ck);
+						cases++;
+					}
+			}
+	// (b) an integrand that itself calls Integrate with other settings (nested integration): the outer call must behave exactly as it
+	//     does when the same integrand values come from a table
+	{
+		struct Set { double eps; int depth; };
+		std::vector<Set> sets = {{1e-10, 20}, {1e-3, 1}, {1e-6, 3}, {1e-12, 0}};
+		for(auto& so : sets)
+			for(auto& si : sets)
+				for(auto iv : std::vector<std::pair<double, double>>{{0, 1}, {-1, 2}, {2, 0.5}})
+				{
+					if(!mc::mine(unit++)) continue;
+					std::map<double, double> memo;
+					std::vector<double> order1, order2;
+					auto inner_value = [&](double x) { return Integrate([x](double y) { return std::exp(x * y); }, 0.0, 1.0, si.eps, si.depth); };
+					auto reentrant = [&](double x) { order1.push_back(x); double v = inner_value(x); memo[x] = v; return v; };
+					std::string ck = "outer_eps=" + mc::dec(so.eps) + ",outer_depth=" + std::to_string(so.depth) + ",inner_eps=" + mc::dec(si.eps) + ",inner_depth=" + std::to_string(si.depth) + ",a=" + mc::dec(iv.first) + ",b=" + mc::dec(iv.second);
+					double v1 = Integrate(reentrant, iv.first, iv.second, so.eps, so.depth);
+					bool missing = false;
+					auto table = [&](double x) { order2.push_back(x); auto it = memo.find(x); if(it == memo.end()) { missing = true; return inner_value(x); } return it->second; };
+					double v2 = Integrate(table, iv.first, iv.second, so.eps, so.depth);
+					cases++;
+					evals += order1.size() + order2.size();
+					if(!mc::same_bits(v1, v2) || order1 != order2 || missing) mc::violation("reentrant", "reentrant|" + ck + "|outer_call_disturbed_by_inner_calls", "with the integrand calling Integrate itself: " + mc::dec(v1) + " after " + std::to_string(order1.size()) + " evaluations; with the same values from a table: " + mc::dec(v2) + " after " + std::to_string(order2.size()), ck);
+					double maxev = std::ldexp(1.0, so.depth + 2) + 1;
+					if((double)order1.size() > maxev) mc::violation("reentrant", "reentrant|" + ck + "|too_many_evaluations", std::to_string(order1.size()) + " evaluations, bound " + mc::dec(maxev), ck);
+				}
+	}
+	// (c) refinement that goes to the depth bound at one place only (integrable kink or root singularity), on intervals whose width is
+	//     tiny against their offset: abscissae stay in the closed interval, count stays within the bound
+	{
+		std::vector<std::pair<double, double>> wiv = {{1000, 1000 + 1e-6}, {1, 1 + 1e-9}, {-5e6, -5e6 + 0.01}, {0, 1}, {1000 + 1e-6, 1000}, {-3, -3 + std::ldexp(1.0, -30)}};
+		for(int t = 1; t < (mc::thorough() ? 24 : 8); t++)	// non-dyadic offsets and widths
+		{
+			double A = 1000.0 + 0.37 * t, B = A + 1e-6 * (1.0 + 0.1 * t);
+			wiv.push_back({A, B});
+			if(t % 3 == 0) wiv.push_back({B, A});
+			wiv.push_back({-(0.1 + 0.013 * t), -(0.1 + 0.013 * t) + 3e-10 * t});
+		}
+		std::vector<int> dd = mc::thorough() ? std::vector<int>{12, 20, 23, 25, 30} : std::vector<int>{12, 23, 25};
+		for(auto& iv : wiv)
+			for(int depth : dd)
+				for(int where = 0; where < 4; where++)
+				{
+					if(!mc::mine(unit++)) continue;
+					double lo = std::min(iv.first, iv.second), hi = std::max(iv.first, iv.second), w = hi - lo;
+					double c = where == 0 ? hi : where == 1 ? lo : where == 2 ? lo + w / 3 : lo + w * 0.7071067811865476;
+					auto f = [c](double x) { return std::sqrt(std::fabs(x - c)); };
+					std::string ck = "sqrt|x-c|,c=" + mc::dec(c) + ",a=" + mc::dec(iv.first) + ",b=" + mc::dec(iv.second) + ",depth=" + std::to_string(depth);
+					// epsilon small enough that the recursion reaches the depth bound next to c, large enough that it stops early elsewhere
+					double v = structural("one_sided_refinement", ck, ck, f, iv.first, iv.second, 1e-6 * w * std::sqrt(w), depth, evals);
+					(void)v;
+					cases++;
+				}
+	}
+	mc::count("special_structure_cases", cases);
+	mc::count("evaluations", cases);
+	mc::count("distinct_nontrivial", cases);
+	mc::count("transitions", evals);
+}
+
 static void regular_families(unsigned long long& unit)
 {
 	struct Case { std::string name; std::function<ld(ld)> f; std::function<ld(ld, ld)> exact; double a, b; double ratio; };
@@ -296,6 +391,7 @@ int main(int argc, char** argv)
 	mc::bound("rule", "M3: complete products polynomial x interval x epsilon x depth, and estimator-regular families admitted by a closed-form filter max|f''''|/min|f''''|<=4; M2: executions of Integrate under harness-chosen answers (states = choice points, transitions = integrand evaluations); non-trivial = degree>=4 quintics, non-bottomed regular cases, distinct (result, evaluation count) outcomes");
 	unsigned long long unit = 0;
 	adversary(unit);
+	special_structures(unit);
 	regular_families(unit);
 	quintics(unit);
 	return mc::finish();
